@@ -987,3 +987,116 @@ pub fn c03_edge_pairs(seed: u64, nvals: u64) -> Phase {
         wall_cap_s: 0,
     }
 }
+
+/// Duplication: one legal construct of the data decoder's grammar delivered n times in a row, for EVERY count
+/// n = 1..=1600 (beyond the largest symbol's 1558 data codewords) and around powers of two up to 2^16, with
+/// and without a macro head. Counts - not values, positions or lengths - are what a fixed-capacity buffer,
+/// a narrow counter or a "cannot happen more than capacity / 2 times" estimate depends on.
+pub fn c05_repeated_atoms() -> Phase {
+    const NATOMS: u64 = 18;
+    const EXTRA: [u64; 15] = [2047, 2048, 2049, 4095, 4096, 4097, 8191, 8192, 8193, 16384, 32767, 32768, 32769, 65535, 65537];
+    const DENSE: u64 = 1600;
+    let per_atom = DENSE + EXTRA.len() as u64;
+    let total = NATOMS * per_atom * 2;
+    let make = move |_ctx: &Ctx, i: u64| -> Trace {
+        let macro_head = i % 2 == 1;
+        let r = i / 2;
+        let atom = r / per_atom;
+        let ni = r % per_atom;
+        let n = if ni < DENSE { ni + 1 } else { EXTRA[(ni - DENSE) as usize] } as usize;
+        let mut data: Vec<u8> = Vec::new();
+        if macro_head {
+            data.push(236);
+        }
+        for _ in 0..n {
+            match atom {
+                0 => data.extend_from_slice(&[241, 27]),            // ECI 26
+                1 => data.extend_from_slice(&[241, 4, 0x42]),       // ECI 3 + a character
+                2 => data.extend_from_slice(&[241, 128, 1]),        // two-byte designator
+                3 => data.extend_from_slice(&[241, 192, 1, 1]),     // three-byte designator
+                4 => data.extend_from_slice(&[241, 27, 235, 0x45]), // ECI 26 + a high byte
+                5 => data.extend_from_slice(&[235, 1]),             // upper shift
+                6 => data.push(232),                                // FNC1
+                7 => data.push(142),                                // a digit pair
+                8 => data.extend_from_slice(&[230, 0x59, 0xBF, 254]), // C40 latch, one triple, unlatch
+                9 => data.extend_from_slice(&[239, 0x59, 0xBF, 254]), // Text
+                10 => data.extend_from_slice(&[238, 0x59, 0xBF, 254]), // X12
+                11 => data.extend_from_slice(&[240, 0x04, 0x21, 0x5F]), // EDIFACT: three values and the unlatch
+                12 => {
+                    // Base256 segment of one byte (length and byte randomised for their positions)
+                    data.push(231);
+                    let p = data.len() + 1;
+                    data.push(rand255(1, p));
+                    let p = data.len() + 1;
+                    data.push(rand255(0xE4, p));
+                }
+                13 => data.extend_from_slice(&[230, 254]),         // latch and unlatch at once
+                14 => data.extend_from_slice(&[233, 0x11, 1, 1]),  // structured append (legal only first)
+                15 => data.push(234),                              // reader programming
+                16 => data.extend_from_slice(&[230, 0x06, 0x69]),  // C40 latch + shift values, never unlatched
+                _ => data.extend_from_slice(&[241, 27, 31, 5]),    // ECI + RS EOT (the macro trailer as data)
+            }
+        }
+        Trace { prop: "C05".into(), producer: Producer::Stream { data }, faults: vec![] }
+    };
+    Phase {
+        source: Source::Sweep { name: "sweep_repeated_constructs_every_count".into(), prop: "C05".into(), make: Box::new(make) },
+        runs: total,
+        wall_cap_s: 0,
+    }
+}
+
+/// Substitution by a valid shorter message, enumerated: for every size, messages of 1..=10 characters from three
+/// alphabets (upper case, digit pairs, lower case); the medium overwrites - from the front or from the back, as
+/// far as the correction radius allows - the data codewords with those of every proper prefix of the message
+/// (including the empty message: nothing but correctly randomised padding). Whole pipeline, pixel stage.
+pub fn c03_impostor_messages() -> Phase {
+    const MAXLEN: u64 = 10;
+    const PER_ALPHA: u64 = MAXLEN * (MAXLEN + 1) / 2; // (m, prefix) pairs with prefix < m
+    let per_size = 3 * PER_ALPHA * 2;
+    let total = N_SIZES as u64 * per_size;
+    let make = move |_ctx: &Ctx, i: u64| -> Trace {
+        let s = (i / per_size) as usize;
+        let r = i % per_size;
+        let order = (r % 2) as usize;
+        let r = r / 2;
+        let alpha = r / PER_ALPHA;
+        let mut k = r % PER_ALPHA;
+        let mut m = 1u64;
+        while k >= m {
+            k -= m;
+            m += 1;
+        }
+        let pre = k as usize; // 0..m-1
+        let unit = |j: u64| -> Vec<u8> {
+            match alpha {
+                0 => vec![b'A' + (j % 26) as u8],
+                1 => vec![b'0' + (j % 10) as u8, b'0' + ((j * 7 + 3) % 10) as u8],
+                _ => vec![b'a' + (j % 26) as u8],
+            }
+        };
+        let mut msg: Vec<u8> = Vec::new();
+        let mut cut = 0usize;
+        for j in 0..m {
+            if j as usize == pre {
+                cut = msg.len();
+            }
+            msg.extend(unit(j));
+        }
+        let list = crate::trace::ListSpec::Single(s);
+        let producer = Producer::Msg { msg: msg.clone(), list: list.clone(), modes: 0x3F, macros: true, fnc1: false, eci: None };
+        let mut faults = Vec::new();
+        if let (Ok(Some((_, da, _))), Ok(Some((_, db, _)))) = (
+            crate::exec::produce_msg(&msg, &list, 0x3F, true, false, None),
+            crate::exec::produce_msg(&msg[..cut], &list, 0x3F, true, false, None),
+        ) {
+            faults = crate::gen::impostor_faults(&SIZES[s], &da, &db, order, None);
+        }
+        Trace { prop: "C03".into(), producer, faults }
+    };
+    Phase {
+        source: Source::Sweep { name: "sweep_shorter_valid_message_substituted".into(), prop: "C03".into(), make: Box::new(make) },
+        runs: total,
+        wall_cap_s: 0,
+    }
+}
